@@ -18,10 +18,14 @@
   `WeakInv ds` is supplied by `C01_weakInv` (`Lemmas/C01WeakInv*`).
 
   Hypotheses: the text is well formed (`Text.WF`: every `&str`, every `&[u16]`); a character of class FSI
-  is as wide as U+2068 (`FSIWidth`, C02); a forced paragraph level is 0 or 1; the data source gives no
-  bracket character class NSM, ES, CS or ET (`BracketClassesOK`; for a data source violating it the
-  crate and UAX #9 really differ — counterexamples in `Lemmas/C01NeutralBN` and `Lemmas/C01WeakInv`;
-  every real bracket has class ON: `hardcoded_bracketClassesOK`).
+  is as wide as U+2068 (`FSIWidth`, C02); a forced paragraph level is 0 or 1.  Nothing is asked of the
+  data source's bracket characters any more: the former hypothesis `BracketClassesOK` ("no bracket
+  character has class NSM, ES, CS or ET"; every real bracket has class ON: `hardcoded_bracketClassesOK`)
+  was needed only while the crate's N0 sweep over the units following a changed bracket tested the current
+  type of a unit (`== BN`) and wrote removed units — for a data source violating it the crate and UAX #9
+  then really differed (the former counterexamples, now agreeing, are in `Lemmas/C01NeutralBN` and
+  `Lemmas/C01WeakInv`).  With the sweep looking at original classes only, the theorems hold for every
+  data source.
   Proof: `Lemmas/C01Compose*.lean`.
 -/
 import UBidi.Lemmas.C01Compose
@@ -70,37 +74,34 @@ theorem C01_weakInv (ds : DataSource) : WeakInv ds := weakInv ds
 
 /-- **C01, single-unit paragraph.**  `t` a well-formed text of `n` one-unit characters, `chars` its
     characters as the Spec sees them (class after X5c; bracket property of the data source; a
-    paragraph separator only at the end; no bracket of class NSM / ES / CS / ET), paragraph level
+    paragraph separator only at the end), paragraph level
     `pl ≤ 1`, and the flags of `compute_initial_info`: `has_isolate_controls` = "some class is an
     isolate initiator", `is_pure_ltr` set only if every class is one of those that leave it set. -/
 theorem C01_unit_of_weakInv (ds : DataSource) (hweak : WeakInv ds) (t : Text) (n : Nat) (hu : UnitText t n)
     (pl : Nat) (hpl : pl ≤ 1) (chars : List Spec.Ch) (hlen : chars.length = n)
     (hB : NoInnerB (chars.map (·.cls)))
     (hbrk : chars.map (·.brk) = t.segs.map (fun s => ds.brk s.cp))
-    (hbc : ∀ c ∈ chars, c.brk.isSome = true → brkClassOK c.cls)
     (pure : Bool) (hpure : pure = true → ∀ ch ∈ chars, pureClass ch.cls = true) :
     paraLevels ds pl pure ((chars.map (·.cls)).any isIsolateInitiator) t (chars.map (·.cls)) =
       (Spec.paragraphLevels pl chars, none) :=
-  paraLevels_unit_flags hweak ⟨hu, hpl, hlen, hB, hbrk, hbc⟩ pure hpure
+  paraLevels_unit_flags hweak ⟨hu, hpl, hlen, hB, hbrk⟩ pure hpure
 
 theorem C01_unit (ds : DataSource) (t : Text) (n : Nat) (hu : UnitText t n)
     (pl : Nat) (hpl : pl ≤ 1) (chars : List Spec.Ch) (hlen : chars.length = n)
     (hB : NoInnerB (chars.map (·.cls)))
     (hbrk : chars.map (·.brk) = t.segs.map (fun s => ds.brk s.cp))
-    (hbc : ∀ c ∈ chars, c.brk.isSome = true → brkClassOK c.cls)
     (pure : Bool) (hpure : pure = true → ∀ ch ∈ chars, pureClass ch.cls = true) :
     paraLevels ds pl pure ((chars.map (·.cls)).any isIsolateInitiator) t (chars.map (·.cls)) =
       (Spec.paragraphLevels pl chars, none) :=
-  C01_unit_of_weakInv ds (weakInv ds) t n hu pl hpl chars hlen hB hbrk hbc pure hpure
+  C01_unit_of_weakInv ds (weakInv ds) t n hu pl hpl chars hlen hB hbrk pure hpure
 
 /-- the general branch alone, with `has_isolate_controls = true` whether or not there is an initiator -/
 theorem C01_unit_general_of_weakInv (ds : DataSource) (hweak : WeakInv ds) (t : Text) (n : Nat)
     (hu : UnitText t n) (pl : Nat) (hpl : pl ≤ 1) (chars : List Spec.Ch) (hlen : chars.length = n)
     (hB : NoInnerB (chars.map (·.cls)))
-    (hbrk : chars.map (·.brk) = t.segs.map (fun s => ds.brk s.cp))
-    (hbc : ∀ c ∈ chars, c.brk.isSome = true → brkClassOK c.cls) :
+    (hbrk : chars.map (·.brk) = t.segs.map (fun s => ds.brk s.cp)) :
     paraLevels ds pl false true t (chars.map (·.cls)) = (Spec.paragraphLevels pl chars, none) :=
-  paraLevels_unit_true hweak ⟨hu, hpl, hlen, hB, hbrk, hbc⟩ false (by simp)
+  paraLevels_unit_true hweak ⟨hu, hpl, hlen, hB, hbrk⟩ false (by simp)
 
 /-- **C01, any well-formed text** (layer 3): `ocs` the paragraph's per-unit classes, uniform within
     characters; `charsOf ds t ocs` the characters (class at the first unit, bracket property).  The
@@ -109,25 +110,23 @@ theorem C01_unit_general_of_weakInv (ds : DataSource) (hweak : WeakInv ds) (t : 
 theorem C01_chars_of_weakInv (ds : DataSource) (hweak : WeakInv ds) (t : Text) (hwf : t.WF) (pl : Nat)
     (hpl : pl ≤ 1) (ocs : Classes) (hlen : ocs.length = t.len) (hu : UniformOn t ocs)
     (hB : NoInnerB (contract t ocs ON))
-    (hbc : ∀ s ∈ t.segs, (ds.brk s.cp).isSome = true → brkClassOK (ocs.getD s.start ON))
     (pure : Bool) (hpure : pure = true → ∀ x ∈ contract t ocs ON, pureClass x = true) :
     paraLevels ds pl pure ((contract t ocs ON).any isIsolateInitiator) t ocs =
       (expand t (Spec.paragraphLevels pl (charsOf ds t ocs)), none) ∧
     contract t (paraLevels ds pl pure ((contract t ocs ON).any isIsolateInitiator) t ocs).1 0 =
       Spec.paragraphLevels pl (charsOf ds t ocs) :=
-  ⟨paraLevels_chars hweak t hwf pl hpl ocs hlen hu hB hbc pure hpure,
-   paraLevels_chars_contract hweak t hwf pl hpl ocs hlen hu hB hbc pure hpure⟩
+  ⟨paraLevels_chars hweak t hwf pl hpl ocs hlen hu hB pure hpure,
+   paraLevels_chars_contract hweak t hwf pl hpl ocs hlen hu hB pure hpure⟩
 
 theorem C01_chars (ds : DataSource) (t : Text) (hwf : t.WF) (pl : Nat)
     (hpl : pl ≤ 1) (ocs : Classes) (hlen : ocs.length = t.len) (hu : UniformOn t ocs)
     (hB : NoInnerB (contract t ocs ON))
-    (hbc : ∀ s ∈ t.segs, (ds.brk s.cp).isSome = true → brkClassOK (ocs.getD s.start ON))
     (pure : Bool) (hpure : pure = true → ∀ x ∈ contract t ocs ON, pureClass x = true) :
     paraLevels ds pl pure ((contract t ocs ON).any isIsolateInitiator) t ocs =
       (expand t (Spec.paragraphLevels pl (charsOf ds t ocs)), none) ∧
     contract t (paraLevels ds pl pure ((contract t ocs ON).any isIsolateInitiator) t ocs).1 0 =
       Spec.paragraphLevels pl (charsOf ds t ocs) :=
-  C01_chars_of_weakInv ds (weakInv ds) t hwf pl hpl ocs hlen hu hB hbc pure hpure
+  C01_chars_of_weakInv ds (weakInv ds) t hwf pl hpl ocs hlen hu hB pure hpure
 
 /-! ### layer 4: `ParagraphBidiInfo::new` -/
 
@@ -135,7 +134,7 @@ theorem C01_chars (ds : DataSource) (t : Text) (hwf : t.WF) (pl : Nat)
     possibly the last).  No panic; the levels are the expansion of — and, read at the character starts,
     equal to — the Spec's levels of the characters with their reported classes, which are X5c of the
     raw classes, at the paragraph level of P2/P3. -/
-theorem C01_paragraphBidiInfo_of_weakInv (ds : DataSource) (hweak : WeakInv ds) (hbc : BracketClassesOK ds)
+theorem C01_paragraphBidiInfo_of_weakInv (ds : DataSource) (hweak : WeakInv ds)
     (t : Text) (hwf : t.WF) (hfsi : FSIWidth ds t) (d : Option Nat) (hd : ∀ l, d = some l → l ≤ 1)
     (hB : ∀ c ∈ (raw ds t).dropLast, c ≠ B) :
     let q := paragraphBidiInfo ds t d
@@ -144,12 +143,12 @@ theorem C01_paragraphBidiInfo_of_weakInv (ds : DataSource) (hweak : WeakInv ds) 
     contract t q.levels 0 = Spec.paragraphLevels q.paraLevel (charsOf ds t q.classes) ∧
     (charsOf ds t q.classes).map (·.cls) = Spec.resolveFSI (raw ds t) ∧
     q.paraLevel = Spec.paraLevel d (raw ds t) := by
-  obtain ⟨h1, h2, h3, h4⟩ := single_para_levels ds hweak hbc t hwf hfsi d hd hB
+  obtain ⟨h1, h2, h3, h4⟩ := single_para_levels ds hweak t hwf hfsi d hd hB
   have herr := C02.C02_no_panic ds t d hwf hfsi false
   simp only [paragraphBidiInfo, h1, herr]
   exact ⟨rfl, trivial, contract_expand t hwf _ 0 h2, h3, h4⟩
 
-theorem C01_paragraphBidiInfo (ds : DataSource) (hbc : BracketClassesOK ds)
+theorem C01_paragraphBidiInfo (ds : DataSource)
     (t : Text) (hwf : t.WF) (hfsi : FSIWidth ds t) (d : Option Nat) (hd : ∀ l, d = some l → l ≤ 1)
     (hB : ∀ c ∈ (raw ds t).dropLast, c ≠ B) :
     let q := paragraphBidiInfo ds t d
@@ -158,7 +157,7 @@ theorem C01_paragraphBidiInfo (ds : DataSource) (hbc : BracketClassesOK ds)
     contract t q.levels 0 = Spec.paragraphLevels q.paraLevel (charsOf ds t q.classes) ∧
     (charsOf ds t q.classes).map (·.cls) = Spec.resolveFSI (raw ds t) ∧
     q.paraLevel = Spec.paraLevel d (raw ds t) :=
-  C01_paragraphBidiInfo_of_weakInv ds (weakInv ds) hbc t hwf hfsi d hd hB
+  C01_paragraphBidiInfo_of_weakInv ds (weakInv ds) t hwf hfsi d hd hB
 
 /-! ### layer 4: `BidiInfo::new` -/
 
@@ -194,7 +193,7 @@ def paraChars (ds : DataSource) (t : Text) (classes : Classes) (p : ParaInfo) : 
     the levels at the starts of `p`'s characters are the Spec's levels, at `p.level`, of `p`'s
     characters with their reported classes; the per-unit levels of `p` are their expansion; the reported
     classes are X5c of the raw classes and `p.level` is P2/P3's level of them (C02). -/
-theorem C01_bidiInfo_of_weakInv (ds : DataSource) (hweak : WeakInv ds) (hbc : BracketClassesOK ds)
+theorem C01_bidiInfo_of_weakInv (ds : DataSource) (hweak : WeakInv ds)
     (t : Text) (hwf : t.WF) (hfsi : FSIWidth ds t) (d : Option Nat) (hd : ∀ l, d = some l → l ≤ 1) :
     let b := bidiInfo ds t d
     b.err = none ∧
@@ -229,7 +228,7 @@ theorem C01_bidiInfo_of_weakInv (ds : DataSource) (hweak : WeakInv ds) (hbc : Br
       simp only [raw, ← List.map_dropLast, List.mem_map] at hc
       obtain ⟨s, hs, rfl⟩ := hc
       exact g0 s hs
-    obtain ⟨e1, e2, e3, e4, e5⟩ := C01_paragraphBidiInfo_of_weakInv ds hweak hbc (t.subrange p.start p.stop) hw
+    obtain ⟨e1, e2, e3, e4, e5⟩ := C01_paragraphBidiInfo_of_weakInv ds hweak (t.subrange p.start p.stop) hw
       (subrange_fsiWidth ds t p.start p.stop hfsi) d hd hB
     have hchars : charsOf ds (t.subrange p.start p.stop) (slice (bidiInfo ds t d).classes p.start p.stop) =
         paraChars ds t (bidiInfo ds t d).classes p :=
@@ -245,7 +244,7 @@ theorem C01_bidiInfo_of_weakInv (ds : DataSource) (hweak : WeakInv ds) (hbc : Br
     exact ⟨e1, e3, e2, e4, e5⟩
   exact ⟨(C10.C10_slice_err ds t hwf d).2 (fun p hp => (key p hp).1), fun p hp => (key p hp).2⟩
 
-theorem C01_bidiInfo (ds : DataSource) (hbc : BracketClassesOK ds)
+theorem C01_bidiInfo (ds : DataSource)
     (t : Text) (hwf : t.WF) (hfsi : FSIWidth ds t) (d : Option Nat) (hd : ∀ l, d = some l → l ≤ 1) :
     let b := bidiInfo ds t d
     b.err = none ∧
@@ -257,7 +256,7 @@ theorem C01_bidiInfo (ds : DataSource) (hbc : BracketClassesOK ds)
       (paraChars ds t b.classes p).map (·.cls) =
         Spec.resolveFSI ((segsIn t p).map (fun s => ds.cls s.cp)) ∧
       p.level = Spec.paraLevel d ((segsIn t p).map (fun s => ds.cls s.cp)) :=
-  C01_bidiInfo_of_weakInv ds (weakInv ds) hbc t hwf hfsi d hd
+  C01_bidiInfo_of_weakInv ds (weakInv ds) t hwf hfsi d hd
 
 /-! ### the built-in Unicode data, `&str` and `&[u16]` -/
 
@@ -274,7 +273,7 @@ theorem C01_hardcoded_str (cs : List Nat) (d : Option Nat) (hd : ∀ l, d = some
       (paraChars hardcoded t b.classes p).map (·.cls) =
         Spec.resolveFSI ((segsIn t p).map (fun s => hardcoded.cls s.cp)) ∧
       p.level = Spec.paraLevel d ((segsIn t p).map (fun s => hardcoded.cls s.cp)) :=
-  C01_bidiInfo hardcoded hardcoded_bracketClassesOK _ (C01.Base.ofScalars_WF cs)
+  C01_bidiInfo hardcoded _ (C01.Base.ofScalars_WF cs)
     (C09.hardcoded_FSIWidth _ (C01.Base.ofScalars_WF cs)) d hd
 
 /-- C01 for the crate's default data on a `&[u16]` (any code units, lossy decoding as in the crate) -/
@@ -291,7 +290,7 @@ theorem C01_hardcoded_utf16 (u : List Nat) (h16 : ∀ x ∈ u, x < 65536) (d : O
       (paraChars hardcoded t b.classes p).map (·.cls) =
         Spec.resolveFSI ((segsIn t p).map (fun s => hardcoded.cls s.cp)) ∧
       p.level = Spec.paraLevel d ((segsIn t p).map (fun s => hardcoded.cls s.cp)) :=
-  C01_bidiInfo hardcoded hardcoded_bracketClassesOK _ (C18.C18_wf u h16)
+  C01_bidiInfo hardcoded _ (C18.C18_wf u h16)
     (C09.hardcoded_FSIWidth _ (C18.C18_wf u h16)) d hd
 
 /-- `ParagraphBidiInfo::new` with the default data on a one-paragraph `&str` -/
@@ -304,7 +303,7 @@ theorem C01_hardcoded_str_single (cs : List Nat) (d : Option Nat) (hd : ∀ l, d
     contract t q.levels 0 = Spec.paragraphLevels q.paraLevel (charsOf hardcoded t q.classes) ∧
     (charsOf hardcoded t q.classes).map (·.cls) = Spec.resolveFSI (raw hardcoded t) ∧
     q.paraLevel = Spec.paraLevel d (raw hardcoded t) :=
-  C01_paragraphBidiInfo hardcoded hardcoded_bracketClassesOK _ (C01.Base.ofScalars_WF cs)
+  C01_paragraphBidiInfo hardcoded _ (C01.Base.ofScalars_WF cs)
     (C09.hardcoded_FSIWidth _ (C01.Base.ofScalars_WF cs)) d hd hB
 
 /-- `ParagraphBidiInfo::new` with the default data on a one-paragraph `&[u16]` -/
@@ -318,7 +317,7 @@ theorem C01_hardcoded_utf16_single (u : List Nat) (h16 : ∀ x ∈ u, x < 65536)
     contract t q.levels 0 = Spec.paragraphLevels q.paraLevel (charsOf hardcoded t q.classes) ∧
     (charsOf hardcoded t q.classes).map (·.cls) = Spec.resolveFSI (raw hardcoded t) ∧
     q.paraLevel = Spec.paraLevel d (raw hardcoded t) :=
-  C01_paragraphBidiInfo hardcoded hardcoded_bracketClassesOK _ (C18.C18_wf u h16)
+  C01_paragraphBidiInfo hardcoded _ (C18.C18_wf u h16)
     (C09.hardcoded_FSIWidth _ (C18.C18_wf u h16)) d hd hB
 
 /-! ### non-vacuity and tests
@@ -337,16 +336,15 @@ def d1Chars : List Spec.Ch := d1.map (fun c => { cls := hardcoded.cls c, brk := 
 example : UnitText (unitize (Text.ofScalars d1)) 8 ∧ (0 : Nat) ≤ 1 ∧ d1Chars.length = 8 ∧
     NoInnerB (d1Chars.map (·.cls)) ∧
     d1Chars.map (·.brk) = (unitize (Text.ofScalars d1)).segs.map (fun s => hardcoded.brk s.cp) ∧
-    (∀ c ∈ d1Chars, c.brk.isSome = true → brkClassOK c.cls) ∧
     (false = true → ∀ ch ∈ d1Chars, pureClass ch.cls = true) :=
   ⟨Lemmas.C01Seq.unitText_unitize _, by decide, by decide, by unfold NoInnerB; decide +kernel,
-    by decide +kernel, by unfold brkClassOK; decide +kernel, by intro h; cases h⟩
+    by decide +kernel, by intro h; cases h⟩
 
 /-- the instance of `C01_unit` for the D1 witness, forced LTR -/
 example : paraLevels hardcoded 0 false ((d1Chars.map (·.cls)).any isIsolateInitiator)
       (unitize (Text.ofScalars d1)) (d1Chars.map (·.cls)) = (Spec.paragraphLevels 0 d1Chars, none) :=
   C01_unit hardcoded _ 8 (Lemmas.C01Seq.unitText_unitize _) 0 (by decide) d1Chars (by decide)
-    (by unfold NoInnerB; decide +kernel) (by decide +kernel) (by unfold brkClassOK; decide +kernel) false
+    (by unfold NoInnerB; decide +kernel) (by decide +kernel) false
     (by intro h; cases h)
 
 /-- test: what both sides are there — the levels UAX #9 assigns to the D1 witness (the crate before the
@@ -356,9 +354,9 @@ example : Spec.paragraphLevels 0 d1Chars = [0, 1, 1, 2, 1, 1, 1, 1] := by decide
 /-- non-vacuity of `C01_bidiInfo` / `C01_hardcoded_str`: every hypothesis holds for every `&str` and the
     built-in data; a forced level 0 (or 1, or none) meets `hd` -/
 example (cs : List Nat) : (Text.ofScalars cs).WF ∧ FSIWidth hardcoded (Text.ofScalars cs) ∧
-    BracketClassesOK hardcoded ∧ (∀ l, some 0 = some l → l ≤ 1) ∧ (∀ l, some 1 = some l → l ≤ 1) ∧
+    (∀ l, some 0 = some l → l ≤ 1) ∧ (∀ l, some 1 = some l → l ≤ 1) ∧
     (∀ l, (none : Option Nat) = some l → l ≤ 1) :=
-  ⟨C01.Base.ofScalars_WF cs, C09.hardcoded_FSIWidth _ (C01.Base.ofScalars_WF cs), hardcoded_bracketClassesOK,
+  ⟨C01.Base.ofScalars_WF cs, C09.hardcoded_FSIWidth _ (C01.Base.ofScalars_WF cs),
     by intro l h; cases h; omega, by intro l h; cases h; omega, by intro l h; cases h⟩
 
 /-- test: the D1 witness as a `&str` (14 bytes), forced LTR, through `BidiInfo::new` -/
@@ -400,13 +398,10 @@ example : (bidiInfo hardcoded (Utf16.toText [0x5D0, 0x3008, 0x61, 0x300, 0x3009,
 example : Pipeline.exText.WF ∧ (1 : Nat) ≤ 1 ∧
     (expand Pipeline.exText Pipeline.exCls).length = Pipeline.exText.len ∧
     UniformOn Pipeline.exText (expand Pipeline.exText Pipeline.exCls) ∧
-    NoInnerB (contract Pipeline.exText (expand Pipeline.exText Pipeline.exCls) ON) ∧
-    (∀ s ∈ Pipeline.exText.segs, (hardcoded.brk s.cp).isSome = true →
-      brkClassOK ((expand Pipeline.exText Pipeline.exCls).getD s.start ON)) :=
+    NoInnerB (contract Pipeline.exText (expand Pipeline.exText Pipeline.exCls) ON) :=
   have h := expand_uniform Pipeline.exText Pipeline.exText_wf Pipeline.exCls (by decide)
   ⟨Pipeline.exText_wf, by decide, h.2, h.1,
-    by rw [contract_expand Pipeline.exText Pipeline.exText_wf _ ON (by decide)]; unfold NoInnerB; decide,
-    by unfold brkClassOK; decide +kernel⟩
+    by rw [contract_expand Pipeline.exText Pipeline.exText_wf _ ON (by decide)]; unfold NoInnerB; decide⟩
 
 /-- non-vacuity of `C01_paragraphBidiInfo` / `C01_hardcoded_str_single`: the first paragraph of `ex2` alone
     (ends with its separator) has no inner separator -/
